@@ -7,6 +7,9 @@ set -u
 PATCH=$(readlink -f "$1"); shift
 TIER=quick
 if [ "${1:-}" = "--tier" ]; then TIER=$2; shift 2; fi
+# --bin-only <out>: just build the mutated small binary and copy it to <out>
+BINONLY=
+if [ "${1:-}" = "--bin-only" ]; then BINONLY=$2; shift 2; fi
 ID=$$
 WT=/tmp/mut_wt_$ID; WS=/tmp/mut_ws_$ID; TG=/tmp/mut_tg
 cleanup() { git -C /repo worktree remove --force $WT 2>/dev/null; rm -rf $WT $WS /tmp/mut_ev_$ID /tmp/vh_mutrel_$ID; }
@@ -18,6 +21,7 @@ sed -i "s#/repo/src/lib.rs#$WT/src/lib.rs#" $WS/subject/Cargo.toml
 sed -i "s#path = \"/repo\"#path = \"$WT\"#" $WS/typecheck/Cargo.toml
 export RUSTFLAGS="--cfg arc_swap_verif" CARGO_NET_OFFLINE=true
 (cd $WS/harness && CARGO_TARGET_DIR=$TG/small cargo build --release --offline --features small 2>&1 | grep -E "^error" -A8)
+if [ -n "$BINONLY" ]; then cp $TG/small/release/vh $BINONLY; exit 0; fi
 SHIP=()
 case " $* " in *" C02 "*|*" C05 "*|*" C10 "*|*" C14 "*)
   (cd $WS/harness && CARGO_PROFILE_RELEASE_DEBUG_ASSERTIONS=false CARGO_PROFILE_RELEASE_OVERFLOW_CHECKS=false CARGO_TARGET_DIR=$TG/rel cargo build --release --offline --features small 2>&1 | grep -E "^error" -A8)
